@@ -6,6 +6,7 @@ import (
 	"fmt"
 	"math/big"
 	"sort"
+	"sync"
 	"time"
 
 	"github.com/NethermindEth/juno/core"
@@ -156,13 +157,13 @@ func checkTempTrieN(res *lib.Result, n int) {
 		rep := replayBody{Kind: "temptrie", State: []byte(fmt.Sprint(n))}
 		switch {
 		case err != nil:
-			res.Violate(lib.Violation{Sig: "temp-trie-error", What: err.Error(), Replay: rep})
+			violateOnce(res, "temp-trie-error", func() lib.Violation { return lib.Violation{Sig: "temp-trie-error", What: err.Error(), Replay: rep} })
 		case !a.Equal(&want):
-			res.Violate(lib.Violation{Sig: "temp-trie2-root-differs-from-commitment-of-map",
-				What: fmt.Sprintf("core.TrieBackend n=%d poseidon=%v: %s, expected %s", n, pos, a.String(), want.String()), Replay: rep})
+			violateOnce(res, "temp-trie2-root-differs-from-commitment-of-map", func() lib.Violation { return lib.Violation{Sig: "temp-trie2-root-differs-from-commitment-of-map",
+				What: fmt.Sprintf("core.TrieBackend n=%d poseidon=%v: %s, expected %s", n, pos, a.String(), want.String()), Replay: rep} })
 		case !b.Equal(&want):
-			res.Violate(lib.Violation{Sig: "temp-legacy-trie-root-differs-from-commitment-of-map",
-				What: fmt.Sprintf("core.DeprecatedTrieBackend n=%d poseidon=%v: %s, expected %s", n, pos, b.String(), want.String()), Replay: rep})
+			violateOnce(res, "temp-legacy-trie-root-differs-from-commitment-of-map", func() lib.Violation { return lib.Violation{Sig: "temp-legacy-trie-root-differs-from-commitment-of-map",
+				What: fmt.Sprintf("core.DeprecatedTrieBackend n=%d poseidon=%v: %s, expected %s", n, pos, b.String(), want.String()), Replay: rep} })
 		}
 	}
 }
@@ -176,4 +177,21 @@ func checkTempTries(f lib.Flags, res *lib.Result, r *lib.RNG) {
 	}
 	sort.Ints(ns)
 	parallel(ns, func(_ int, n int) { checkTempTrieN(res, n) })
+}
+
+var (
+	sigMu   sync.Mutex
+	sigSeen = map[string]bool{}
+)
+
+// violateOnce builds (and shrinks) the replay only for the first violation of each signature.
+func violateOnce(res *lib.Result, sig string, mk func() lib.Violation) {
+	sigMu.Lock()
+	seen := sigSeen[sig]
+	sigSeen[sig] = true
+	sigMu.Unlock()
+	if seen {
+		return
+	}
+	res.Violate(mk())
 }
